@@ -73,11 +73,11 @@ Print Assumptions C46_seq_bridge.
 (* (3) A forced interleaving (pushes landing between Pop's token receive and
        its critical section): if the observation is explained by one of the
        candidate schedules of the model, the predicate holds for that schedule. *)
-Theorem C46_mid_bridge : forall cap batch pre mids out after,
+Theorem C46_mid_bridge : forall cap batch pre mids term out nilret after,
   0 <= cap -> 0 <= batch ->
-  corr_ok (CMid cap batch pre mids out after) = true ->
-  pred_ok (CMid cap batch pre mids out after) = true.
-Proof. intros cap batch pre mids out after Hc Hb. apply mid_bridge; assumption. Qed.
+  corr_ok (CMid cap batch pre mids term out nilret after) = true ->
+  pred_ok (CMid cap batch pre mids term out nilret after) = true.
+Proof. intros cap batch pre mids term out nilret after Hc Hb. apply mid_bridge; assumption. Qed.
 Print Assumptions C46_mid_bridge.
 
 (* Tie T: Pop receives the token before taking the mutex and runs the rest
